@@ -11,6 +11,7 @@
 -/
 import FP.Model.Isolation
 import FP.Gen.Globals
+import FP.Model.Eval
 namespace FP.Props.C04
 open FP.Model FP.Gen.Sites
 
@@ -254,5 +255,41 @@ example : Disciplined (fun l => if l = 1 then some 0 else if l = 2 then some 1 e
   | 0, ht => simp at ht; subst ht; simp at ha; rcases ha with rfl | rfl | rfl <;> simp
   | 1, ht => simp at ht; subst ht; simp at ha; rcases ha with rfl | rfl | rfl <;> simp
   | n + 2, ht => simp at ht
+
+/-! ### the clock inside the assembled evaluator (FP.Model.Eval): `now()`, `today()`, `timeOfDay()` -/
+
+section Clock
+open FP.Model.Eval
+
+/-- ONE READING PER EVALUATION: wherever a clock function stands in an expression — on whatever input
+    collection it is evaluated, under whatever criterion, however often — it yields the reading the
+    evaluation started with; nothing an expression does can change it -/
+theorem expr_clock_is_the_reading (env : Env) (n : String) (h : isClockFn n = true) (input : List Val) :
+    eval env (.fn n .argNil) input = clockFn n env := by
+  have hn : n ≠ "unimplemented!" := by
+    intro hc; subst hc; simp [isClockFn] at h
+  simp [eval, hn, h]
+
+theorem expr_clock_same_everywhere (env : Env) (n : String) (h : isClockFn n = true) (i j : List Val) :
+    eval env (.fn n .argNil) i = eval env (.fn n .argNil) j := by
+  rw [expr_clock_is_the_reading env n h, expr_clock_is_the_reading env n h]
+
+/-- a step before the clock function does not matter as long as it evaluates: `X.now()` is `now()` -/
+theorem expr_clock_after_any_step (env : Env) (n : String) (h : isClockFn n = true) (a : E) (input mid : List Val)
+    (ha : eval env a input = .ok mid) :
+    eval env (.seq a (.fn n .argNil)) input = eval env (.fn n .argNil) input := by
+  simp only [eval, ha, Res.bind]
+  exact expr_clock_same_everywhere env n h _ _
+
+/-- the variables of the caller cannot shadow or disturb the reading: `finish` puts it in front -/
+theorem clock_not_shadowed (clock : List Val) (env : Env) (n : String) :
+    clockFn n ((clockKey, clock) :: env) = clockFn n [(clockKey, clock)] := by
+  simp [clockFn, List.find?]
+
+-- non-vacuity: a reading with an offset; today() is the date of the reading in its own zone
+example : (match clockFn "today" [(clockKey, [strVal "2020-02-29T23:59:59.999+05:30".toList])] with
+    | .ok [.date t] => t.comps | _ => []) = [2020, 2, 29] := by decide +kernel
+
+end Clock
 
 end FP.Props.C04
